@@ -5,6 +5,7 @@ import (
 	"fmt"
 	"os"
 	"path/filepath"
+	"runtime"
 	"runtime/debug"
 	"sort"
 	"strconv"
@@ -75,6 +76,28 @@ func main() {
 					rc = 1
 				}
 			}
+		}
+		os.Exit(rc)
+	case "alpha":
+		ids := os.Args[2:]
+		if len(ids) == 0 {
+			ids = sortedIDs()
+		}
+		rc := 0
+		for _, id := range ids {
+			p := registry[id]
+			if p == nil {
+				fmt.Printf("unknown property %s\n", id)
+				rc = 1
+				continue
+			}
+			for _, m := range runAlpha(p, "slicelabels", "suffix", "opaque") {
+				fmt.Printf("%s %-14s %s  %s\n", id, m.ID, m.Verdict, m.Detail)
+				if m.Verdict == "ALARM" || m.Verdict == "BROKEN" {
+					rc = 1
+				}
+			}
+			runtime.GC()
 		}
 		os.Exit(rc)
 	case "selftest":
